@@ -216,6 +216,9 @@ type Report struct {
 func buildReport(eng *Engine, results []*FuncResult, prop, tier string, loadMs int64, wall time.Duration) *Report {
 	rep := &Report{Property: prop, Tier: tier, LoadMs: loadMs, WallMs: wall.Milliseconds(), ByEngine: map[string]int{}}
 	for _, r := range results {
+		if r == nil {
+			continue
+		}
 		fr := FuncReport{Key: r.Key, Display: r.Display, Props: r.Props, Paths: r.Paths, Returns: r.Returns, Panics: r.Panics, Capped: r.Capped,
 			Vacuous: r.Vacuous, Error: r.Error, WallMs: r.WallMs, Notes: r.Notes, Specs: r.Specs, Inputs: r.Inputs}
 		for _, o := range r.Obligs {
